@@ -90,6 +90,7 @@ def hostile_requests(TG, rnd, tier, channels=("dismain", "parse", "loadasm")):
                     ws += i.words()
                 reqs.append(f"{channels[(k + len(kind)) % len(channels)]} {instgen.to_bytes(ws).hex()}")
                 stats["inst-" + kind] = stats.get("inst-" + kind, 0) + 1
+    stats["_families_from"] = len(reqs)      # from here on: small deterministic families (a sampler should keep all of them)
     # constants of undeclared / unsupported types, nested spec-constant opcodes of every kind, strings at the limit
     lit32 = g.vix["LiteralBit32"]
     for op in sorted(g.by_opcode):
@@ -97,7 +98,7 @@ def hostile_requests(TG, rnd, tier, channels=("dismain", "parse", "loadasm")):
         w = instgen.header(bound=10) + [((len(body) + 1) << 16) | g.opv["SpecConstantOp"]] + body
         reqs.append(f"{channels[op % len(channels)]} {instgen.to_bytes(w).hex()}")
     stats["spec-op-nested"] = len(g.by_opcode)
-    for width in (0, 1, 8, 16, 24, 32, 48, 64, 128, 4294967295):
+    for width in (0, 1, 7, 8, 9, 16, 24, 31, 32, 33, 48, 63, 64, 65, 128, 0x7fffffff, 0x80000000, 0xffffffe0, 0xffffffe1, 4294967295):
         for tyop in ("TypeInt", "TypeFloat"):
             w = instgen.header(bound=10)
             w += instgen.Inst(g.opv[tyop], tyop, None, 1, [instgen.Op("w", lit32, width)] + ([instgen.Op("w", lit32, 1)] if tyop == "TypeInt" else [])).words()
